@@ -68,7 +68,8 @@ if "C05" in which:
 IMPE05 = """From Coq Require Import ZArith NArith List Bool String Reals.
 From Flocq Require Import Raux.
 From Alator Require Import Model.Num Model.Quirks Model.Cost Model.Exchange Model.Uist Model.Server Model.Broker
-  Model.Strategy Model.BrokerSys Proofs.ServerProofs Proofs.ExchangeProofs Proofs.BrokerLedgerProofs Proofs.EndToEnd05.
+  Model.Strategy Model.BrokerSys Proofs.ServerProofs Proofs.ExchangeProofs Proofs.BrokerLedgerProofs Proofs.EndToEnd05
+  Proofs.EndToEnd04.
 Import ListNotations.
 Local Existing Instance RNum."""
 if "C05" in which:
@@ -79,7 +80,19 @@ if "C05" in which:
         ("c05s_step", "bs_step_inv", "One operation preserves the system invariant: pending(s) = signed quantity of the orders the exchange still holds for s, keys unique, and no entry at all for a symbol with no outstanding order."),
         ("c05s_pending_end_to_end", "c05_pending_end_to_end", "… hence every history does."),
         ("c05s_pending_from_fresh", "c05_pending_from_fresh", "END TO END from a fresh backtest and a broker with no pending exposure, every history: pending exposure per symbol equals the signed quantity of accepted but not yet filled orders, and the map is EMPTY as soon as the exchange holds none of this broker's orders. (Premise rows_total: every date of the dataset has a row — proved of every Penelope dataset, c07_dataset_row_iff_date.)"),
+        ("c05s_log_is_exchange_log", "c05_log_is_exchange_log", "First sentence, END TO END: from a fresh start, after every history the broker's trade log IS the exchange's own trade log of its backtest — exactly those trades, in execution order."),
+        ("c05s_holdings_from_exchange_log", "c05_holdings_from_exchange_log", "… and holdings per symbol equal bought minus sold over the trades the exchange executed (its own log), no zero entry, keys unique."),
         ("c05s_with_pending", "c05_with_pending_end_to_end", "holdings-with-pending is holdings plus that signed quantity, and just the holdings for a symbol with nothing outstanding."),
+    ])
+
+if "C04" in which:
+    gen("C04sys", "C04 END TO END over the composition broker + eager client + Uist server + Uist exchange for an "
+        "arbitrary client (Model/BrokerSys.v), with 'the trades the exchange has executed for it' read as the exchange's "
+        "OWN trade log of the broker's backtest. [R].", IMPE05, [
+        ("c04s_step_is_broker_step", "bs_step_is_bstep", "One operation of the composition is, on the broker, exactly one broker operation of Model/Broker.v (the model compared with the code), with the responses supplied by the server."),
+        ("c04s_cash_from_exchange_log", "c04_cash_from_exchange_log", "Defect-free valuation, every history from a fresh backtest: cash = initial cash + accepted deposits - successful withdrawals - value of every buy + value of every sell in the exchange's log, each trade once."),
+        ("c04s_cash_from_exchange_log_as_is", "c04_cash_from_exchange_log_as_is", "The code as it is (recorded finding q_liq_fail_debit on): the same law with one extra term, the forced debits of failed liquidation requests that did not exceed cash — the exact size of the open finding."),
+        ("c04s_no_forced_debits_when_clean", "bs_forced_debits_none", "That term vanishes without the defect."),
     ])
 
 IMPF = """From Coq Require Import ZArith NArith List Bool String Floats.
